@@ -173,7 +173,9 @@ def clientById (c : Cache) (now : Nat) (sid : Str) (answer : ServerAnswer)
   match c.lookupNonExpired now sid with
   | (c1, none) => (c1, .resumeFailed sid)
   | (c1, some e) =>
-    if requireAuth && !e.authenticated then (c1, .resumeFailed sid)
+    -- only a session that carries an AES key is resumable, on this path too (fix D19: the guard
+    -- of the command-map path was missing here); REQUIRED authentication as there (fix D18)
+    if !(e.key.isSome && (e.crypto == "AES" || e.crypto == "AESGCM")) || (requireAuth && !e.authenticated) then (c1, .resumeFailed sid)
     else match answer with
     | .authorized => (c1.store (e.renew now), .resumed e.id e.key e.user e.authenticated)
     | .sidNotFound => (c1.invalidate e.id, .resumeFailed e.id)
